@@ -277,7 +277,7 @@ fn oracle(out: &mut Out, w: &World, base: &SideInfo, sides: &[SideInfo], m: &Arc
 pub fn run(cfg: &Cfg, out: &mut Out) {
     use_fast_tmp();
     let mut r = cfg.rng(13);
-    let total = cfg.n(1000, 25_000);
+    let total = cfg.n(1000, 12_000);
     let mut chain: Option<Chain> = None;
     for k in 0..total {
         let cap = if k < total / 8 { 2 } else if k < total / 3 { 4 } else { 6 };
